@@ -44,7 +44,8 @@ def handle : List String → Option String
     let s ← parseState a b z
     let o := bisync pathLe (fun x y => decide (x ≥ y)) (cname host) s
     let archS := match o.state.arch with | none => "none" | some m => showTree (ofArch m)
-    some s!"{showStatus o.status} {o.planLen} {o.nConflicts} A={showTree o.state.A} B={showTree o.state.B} arch={archS}"
+    let nconf := if o.status = .ioError then "-" else toString o.nConflicts
+    some s!"{showStatus o.status} {o.planLen} {nconf} A={showTree o.state.A} B={showTree o.state.B} arch={archS}"
   | ["biplan", a, b, z] => do
     let s ← parseState a b z
     let pl := bisyncPlan pathLe s
